@@ -3,6 +3,7 @@ import QV.Proofs.Circuit
 import QV.Proofs.CompilerInv
 import QV.Proofs.CompilerSem
 import QV.Proofs.CompilerSem2
+import QV.Proofs.CompilerGen8
 /-!
 # C02 – The circuit computes the function's boolean expressions
 
@@ -13,9 +14,11 @@ expression.  Every return bit is mapped to a qubit, with and without final uncom
 
 `C02_statement` below is the full property about the compiler model.  The model follows the
 compiler with the repairs of the uncomputation protocol (`docs/fixes/CC-*.diff`; before them the
-statement was false, see the `fixed` entries of `known_findings.json`).  No failing compilation is
-known for the repaired compiler, but `C02_statement` is not proved in general; what is proved here
-is (partial):
+statement was false, see the `fixed` entries of `known_findings.json`).  As stated it is still false
+(a return name that is never bound; `b = a; a = Not(a)`, a new finding; model-only degenerate
+expressions – see `C02_general_partial` at the end of the file, which proves the property on the general
+class: every definition list with cache hits, shared sub-expressions across statements and re-binding,
+with these cases excluded by a decidable predicate).  What is proved here is (partial):
 
 * `validate_sound` – the per-instance validator used by the check is sound for *all* inputs:
   a compiled instance that passes it satisfies the property on every input basis state.  The
@@ -542,5 +545,122 @@ example : ∃ s, (compile ["a", "b", "c"]
       (some ["_ret.0", "_ret.1"]) false).run { choices := [3, 4] } with
   | ok p => exact ⟨p.2, rfl⟩
   | error e => rw [hrun] at h; cases h
+
+/-! ## The general class: cache hits, shared sub-expressions across statements, re-binding
+
+Proofs: `QV/Proofs/CompilerGen1…8.lean`.  Instead of a per-class induction in which every lookup of the
+expression cache misses, a state invariant over the whole compilation (`GI` inside a statement, `BI` between
+statements) is kept by every branch of `compile_expr` – step 3 "the expression is cached" included – and by both
+ends of a statement:
+
+* every cache entry `e ↦ q` has `q` in use and holding the value of `e` under the current environment (a hit is
+  sound; `expqmap.remove_symbol` on re-binding and `expqmap.remove(uncompute())` keep this);
+* the qubit of every name in scope holds the name's value (definitions evaluated sequentially; a name may be
+  defined again); every qubit of the scratch space (free set, not yet allocated) is zero;
+* every control of every gate of the current statement is marked now or had, at gate time, the value it has now
+  (the hypothesis of the reverse-replay lemma `bennettF`, kept because a qubit that has been read is never
+  written again unless it is marked); marked qubits are in-use, unkept ancillas that are targets of gates of the
+  statement; kept ancillas and promoted qubits are never targets of later gates;
+* between statements every ancilla is free or kept: a statement whose ancillas are released leaves no ancilla in
+  use behind (all of them were marked, except the result, which is promoted). -/
+
+/-- **C02 on the general class** (`inGeneralClass` = `inGeneral` ∨ the two single-definition classes): argument
+names distinct and not reserved; every left-hand side not reserved – it MAY be an argument or an earlier
+left-hand side (re-binding); every right-hand side built from arguments / earlier left-hand sides / constants with
+`Not` / `And` / `Or` / `Xor` of any arity and ANY sharing: the same compound sub-expression may occur any number of
+times inside a definition and across definitions (cache hits, also on ancillas kept for the final
+`uncompute_all`); several return bits; every requested return name is an argument or a left-hand side; final
+uncomputation on or off; every admissible sequence of ancilla choices (re-use of released ancillas included).
+Then every successful run of the compiler model is `Correct`.
+
+What is NOT covered, i.e. what separates this from `C02_statement` (which is FALSE as stated, see
+`docs/notes/C02_C03_C06.md`):
+* the in-place self-negation `r = Not(r)` (`selfNot`): the compiler flips the qubit of `r`; after an alias
+  `b = r` the name `b` shares that qubit and changes with it – `[b = a; a = Not(a); _ret = b]` is compiled wrongly
+  by the real compiler (finding, confirmed on `to_quantum`);
+* reserved names (`TRUE`, `FALSE`, `anc_…`) as arguments or left-hand sides, repeated argument names, a return
+  name that is never bound (the circuit has no such qubit);
+* `Or` / `Xor` without arguments and a constant directly under `Xor` (neither can reach the compiler: sympy does
+  not build the former, `_symplify_exp` removes the latter); `ITE` / `Implies` (rejected by the compiler). -/
+theorem C02_general_partial (inputs : List String) (defs : List (String × BExp)) (rets : List String)
+    (unc : Bool) (choices : List Nat) (s : CState)
+    (hf : inGeneralClass inputs defs rets = true)
+    (h : (compile inputs defs (some rets) unc).run { choices := choices } = .ok ((), s)) :
+    Correct s.qc.gates.toList s.qc.numQubits s.qc.qmap inputs defs rets := by
+  simp only [inGeneralClass, Bool.or_eq_true] at hf
+  rcases hf with (hf | hf) | hf
+  · simp only [inGeneral, Bool.and_eq_true, decide_eq_true_eq, List.all_eq_true, Bool.not_eq_true',
+      Bool.or_eq_true, List.contains_eq_mem, List.any_eq_true, beq_iff_eq] at hf
+    obtain ⟨⟨⟨hnd, hfr⟩, hgen⟩, hrets⟩ := hf
+    intro x hx r hr
+    refine compile_general_sem h hnd hfr hgen x hx r ?_ (fun _ => hr)
+    rcases hrets r hr with h' | ⟨p, hp, hpr⟩
+    · exact Or.inl (by simpa using h')
+    · exact Or.inr ⟨p, hp, hpr⟩
+  · exact C02_fragment_partial inputs defs rets unc choices s hf h
+  · exact C02_fragment_consts inputs defs rets unc choices s hf h
+
+/-- the class of `C02_general_partial` contains every class of the older fragment theorems -/
+theorem C02_general_contains (inputs : List String) (defs : List (String × BExp)) (rets : List String) :
+    (inFragment inputs defs rets = true → inGeneralClass inputs defs rets = true) ∧
+    (inFragmentConst inputs defs rets = true → inGeneralClass inputs defs rets = true) ∧
+    (inFragmentNamedW inputs defs rets = true → inGeneralClass inputs defs rets = true) ∧
+    (inFragmentNamed inputs defs rets = true → inGeneralClass inputs defs rets = true) ∧
+    (inFragmentMulti inputs defs rets = true → inGeneralClass inputs defs rets = true) := by
+  have hW : inFragmentNamedW inputs defs rets = true → inGeneralClass inputs defs rets = true := by
+    intro h
+    simp only [inGeneralClass, Bool.or_eq_true]
+    exact Or.inl (Or.inl (inGeneral_of_inFragmentNamedW h))
+  refine ⟨fun h => ?_, fun h => ?_, hW, fun h => hW (inFragmentNamedW_of_inFragmentNamed h), fun h => ?_⟩
+  · simp only [inGeneralClass, Bool.or_eq_true]; exact Or.inl (Or.inr h)
+  · simp only [inGeneralClass, Bool.or_eq_true]; exact Or.inr h
+  · simp only [inFragmentMulti, Bool.and_eq_true] at h
+    exact hW (inFragmentNamedW_of_inFragmentNamed h.1)
+
+/-- an instance of the general class that is in none of the older classes: `a & b` is computed for `m` (an
+intermediate that is not a return bit: with final uncomputation on its ancillas are kept), found in the cache by
+`_ret.0` (accumulated into an `Xor`) and by `_ret.1` (as an argument of `Or`); `m` is read twice; `t` is defined
+twice (re-binding evicts `Not(t)`'s cache entry) -/
+example : inGeneral ["a", "b", "c"]
+    [("m", .or [.and [.sym "a", .sym "b"], .sym "c"]),
+     ("t", .not (.sym "m")),
+     ("_ret.0", .xor [.and [.sym "a", .sym "b"], .sym "m", .not (.sym "t")]),
+     ("t", .and [.sym "t", .sym "c"]),
+     ("_ret.1", .or [.and [.sym "a", .sym "b"], .not (.sym "t")])] ["_ret.0", "_ret.1"] = true ∧
+  inAnyFragment ["a", "b", "c"]
+    [("m", .or [.and [.sym "a", .sym "b"], .sym "c"]),
+     ("t", .not (.sym "m")),
+     ("_ret.0", .xor [.and [.sym "a", .sym "b"], .sym "m", .not (.sym "t")]),
+     ("t", .and [.sym "t", .sym "c"]),
+     ("_ret.1", .or [.and [.sym "a", .sym "b"], .not (.sym "t")])] ["_ret.0", "_ret.1"] true = false := by
+  decide +kernel
+
+/-- non-vacuity of `C02_general_partial` on a program outside every older class (kernel-evaluated): `t` is
+defined twice (the second definition reads the first), final uncomputation on, the ancillas of `t` are kept.
+Programs with `And` / `Or` – the ones whose runs have cache hits across statements, like the instance above –
+are exercised through the driver in every check run (`in_general_cache_hit` in `evidence/C02.json`: 162 of the 914
+in-class instances of a quick run): `List.mergeSort` (`sortNat`) does not evaluate in the kernel. -/
+example : inGeneral ["a", "b", "c"]
+      [("t", .xor [.sym "a", .sym "b"]), ("t", .xor [.sym "t", .not (.sym "c")]), ("_ret", .not (.sym "t"))]
+      ["_ret"] = true ∧
+    inFragmentNamedW ["a", "b", "c"]
+      [("t", .xor [.sym "a", .sym "b"]), ("t", .xor [.sym "t", .not (.sym "c")]), ("_ret", .not (.sym "t"))]
+      ["_ret"] = false ∧
+    ∃ s, (compile ["a", "b", "c"]
+      [("t", .xor [.sym "a", .sym "b"]), ("t", .xor [.sym "t", .not (.sym "c")]), ("_ret", .not (.sym "t"))]
+      (some ["_ret"]) true).run { choices := [3, 4, 5] } = .ok ((), s) := by
+  refine ⟨by decide +kernel, by decide +kernel, ?_⟩
+  have h : ((compile ["a", "b", "c"]
+      [("t", .xor [.sym "a", .sym "b"]), ("t", .xor [.sym "t", .not (.sym "c")]), ("_ret", .not (.sym "t"))]
+      (some ["_ret"]) true).run { choices := [3, 4, 5] }).toBool = true := by decide +kernel
+  cases hrun : (compile ["a", "b", "c"]
+      [("t", .xor [.sym "a", .sym "b"]), ("t", .xor [.sym "t", .not (.sym "c")]), ("_ret", .not (.sym "t"))]
+      (some ["_ret"]) true).run { choices := [3, 4, 5] } with
+  | ok p => exact ⟨p.2, rfl⟩
+  | error e => rw [hrun] at h; cases h
+
+/-- not in the general class: the in-place self-negation (after the alias `b = a` the compiler is wrong) -/
+example : inGeneral ["a"] [("b", .sym "a"), ("a", .not (.sym "a")), ("_ret", .sym "b")] ["_ret"] = false := by
+  decide +kernel
 
 end QV.C02
